@@ -50,12 +50,14 @@ METHODS = {
     'jumps': [
         ('jump_diffusivity', [((3,), {}), ((1,), {}), ((2,), {}), ((), {'dimensions': 2}), ((), {'dimensions': 3})]),
         ('matrix', [((), {})]),
-        ('collective', [((), {}), ((0.5,), {}), ((2.0,), {}), ((), {'max_dist': 4.0}), ((), {'max_dist': 2.0}), ((1,), {})]),
+        ('collective', [((), {}), ((0.5,), {}), ((2.0,), {}), ((), {'max_dist': 4.0}), ((), {'max_dist': 2.0}), ((1,), {}),
+                        (({'fwu': [2.0, 'bohr']},), {}), ((), {'max_dist': {'fwu': [4.0, 'bohr']}}), (({'npf': 2.0},), {}), ((), {'max_dist': {'fwu': [0.5, 'nm']}})]),
         ('activation_energies', [((2,), {}), ((3,), {}), ((), {'n_parts': 2}), ((60,), {})]),
         ('counter', [((), {})]),
         ('_counter', [((), {})]),
         ('to_graph', [((), {}), ((None, 0.5), {}), ((0.1,), {}), ((), {'max_e_act': 0.3}), ((), {'min_e_act': 0.2, 'max_e_act': 0.6}),
-                      ((), {'min_e_act': 0.3}), ((0.3,), {}), ((), {'max_e_act': 0.1}), ((), {'max_e_act': 0.2, 'min_e_act': 0.6}), ((0.6, 0.2), {})]),
+                      ((), {'min_e_act': 0.3}), ((0.3,), {}), ((), {'max_e_act': 0.1}), ((), {'max_e_act': 0.2, 'min_e_act': 0.6}), ((0.6, 0.2), {}),
+                      ((), {'max_e_act': {'fwu': [0.3, 'Ha']}}), (({'fwu': [0.1, 'Ha']},), {}), ((), {'max_e_act': {'npf': 0.3}})]),
         ('rates', [((2,), {}), ((3,), {}), ((), {'n_parts': 2}), ((60,), {})]),
         ('n_solo_jumps', [('property', {})]),
         ('solo_fraction', [('property', {})]),
@@ -66,6 +68,27 @@ METHODS = {
         ('multiple_collective', [((), {})]),
     ],
 }
+
+
+def decode_arg(v):
+    """JSON-able spellings of argument values that compare equal to a plain number but are not one."""
+    if isinstance(v, dict) and 'fwu' in v:
+        from pymatgen.core.units import FloatWithUnit
+
+        return FloatWithUnit(v['fwu'][0], v['fwu'][1])
+    if isinstance(v, dict) and 'npf' in v:
+        return np.float64(v['npf'])
+    return v
+
+
+def alt_conversion(transitions, *, minimal_residence: int = 0):
+    """A user-supplied conversion_method: the generic one minus the last jump (another jump table for the same Transitions)."""
+    from gemdat.jumps import _generic_transitions_to_jumps
+
+    df = _generic_transitions_to_jumps(transitions, minimal_residence=minimal_residence)
+    return df.iloc[:-1].reset_index(drop=True) if len(df) > 2 else df
+
+
 DECORATED = {
     'metrics': 10, 'transitions': 3, 'jumps': 8, 'collective': 3,
 }
@@ -125,7 +148,7 @@ def _canon(x, depth=0):
         return ['graph', type(x).__name__, nodes, edges]
     if isinstance(x, Collective):
         return ['coll', _canon(x.n_solo_jumps, depth + 1), _canon(x.n_coll_jumps, depth + 1), _canon(x.coll_jumps, depth + 1),
-                _canon([[a, b] for a, b in x.collective], depth + 1), _canon(x.max_dist, depth + 1), _canon(x.max_steps, depth + 1)]
+                _canon([[a, b] for a, b in x.collective], depth + 1), _f(float(x.max_dist)), _canon(x.max_steps, depth + 1)]  # (max_dist: its number only - an equal-comparing argument of another type/unit shares the entry by design of lru_cache)
     if hasattr(x, 'data') and hasattr(x, 'transitions') and isinstance(getattr(x, 'data', None), pd.DataFrame):  # a Jumps
         return ['jumps', _canon(x.data, depth + 1), _canon(getattr(x, 'minimal_residence', None), depth + 1)]
     if hasattr(x, 'states') and hasattr(x, 'events') and isinstance(getattr(x, 'events', None), pd.DataFrame):  # a Transitions
@@ -401,6 +424,7 @@ def generate(run_seed: int, tier: str = 'quick', stream: str = 'seq') -> dict:
         'CREATE': rng.uniform(2, 5), 'QUERY': rng.uniform(5, 12), 'DROP': rng.uniform(1, 4), 'GC': rng.uniform(0.3, 2),
         'SHARE': rng.uniform(0, 1) if n_clients > 1 else 0, 'CHURN': rng.uniform(0, 1), 'REUSE': rng.uniform(0.5, 4),
         'FLOOD': rng.pick([0, 0, 0.15, 0.4]),
+        'CONCURRENT': rng.pick([0, 0.5, 1.5]),
     }
     n_ops = rng.randint(10, 120 if tier == 'quick' else 250)
     ops = []
@@ -427,6 +451,7 @@ def generate(run_seed: int, tier: str = 'quick', stream: str = 'seq') -> dict:
             if trs and rng.chance(0.6):
                 op['base'] = rng.pick(trs)
                 op['via'] = rng.pick(['ctor', 'api'])
+                op['conv'] = rng.pick(['default', 'default', 'alt'])
             elif rng.chance(0.25):
                 par = [n for n, k in names if k in ('jumps', 'transitions')]
                 if par:
@@ -491,6 +516,22 @@ def generate(run_seed: int, tier: str = 'quick', stream: str = 'seq') -> dict:
                    'gc': rng.chance(0.3), 'client': rng.randrange(n_clients)}
             names.append((new['name'], k))
             ops.append(new)
+        elif kind == 'CONCURRENT':
+            # two fresh objects of one kind on two worlds, asked the same question by two caller threads at once
+            if n_worlds < 2:
+                continue
+            k = rng.pick([x for x in cfg['kinds'] if x != 'collective'] or ['metrics'])
+            wa = rng.randrange(n_worlds)
+            wb = (wa + 1 + rng.randrange(n_worlds - 1)) % n_worlds
+            na, nb = new_name(), new_name()
+            for nm, ww in ((na, wa), (nb, wb)):
+                c = {'op': 'CREATE', 'name': nm, 'kind': k, 'w': ww, 'client': rng.randrange(n_clients)}
+                if k in ('metrics', 'transitions'):
+                    c['v'] = 0
+                names.append((nm, k))
+                ops.append(c)
+            mi = rng.randrange(DECORATED[k])
+            ops.append({'op': 'CONCURRENT', 'a_obj': na, 'b_obj': nb, 'm': mi, 'a': rng.randrange(min(len(METHODS[k][mi][1]), cfg['arg_spread']))})
         elif kind == 'FLOOD' and floods < 2:
             floods += 1
             fk = rng.pick([k for k in ('metrics', 'transitions') if k in cfg['kinds']] or ['metrics'])
@@ -568,7 +609,7 @@ class Run:
 
     @staticmethod
     def root_world(recipe):
-        while recipe[0] in ('part', 'collective', 'jumps_on'):
+        while recipe[0] in ('part', 'collective', 'jumps_on', 'jumps_on_c'):
             recipe = recipe[1]
         return recipe[1]
 
@@ -585,14 +626,19 @@ class Run:
         if kind == 'jumps':
             _, w, v, mr = recipe
             return C['jumps'](C['transitions'](**self.world(w).transitions_kwargs(v)), minimal_residence=mr)
+        if kind == 'jumps_c':
+            _, w, v, mr = recipe
+            return C['jumps'](C['transitions'](**self.world(w).transitions_kwargs(v)), minimal_residence=mr, conversion_method=alt_conversion)
+        if kind == 'jumps_on_c':
+            _, base, mr = recipe
+            return C['jumps'](self.build(base, twin), minimal_residence=mr, conversion_method=alt_conversion)
         if kind == 'collective':
             _, jrecipe, how, arg = recipe
             j = self.build(jrecipe, twin)
             w = self.root_world(jrecipe)
             if how == 'direct':
                 return C['collective'](jumps=j, sites=self.world(w).sites, lattice=self.world(w).lattice, max_steps=4, max_dist=arg)
-            args, kwargs = METHODS['jumps'][2][1][arg]
-            return j.collective(*args, **kwargs)
+            return self.call(j, 'collective', METHODS['jumps'][2][1][arg])
         if kind == 'part':
             _, parent, n, i = recipe
             return self.build(parent, twin).split(n)[i]
@@ -606,7 +652,7 @@ class Run:
         args, kwargs = variant
         if args == 'property':
             return getattr(obj, method)
-        return getattr(obj, method)(*args, **kwargs)
+        return getattr(obj, method)(*[decode_arg(a) for a in args], **{k: decode_arg(v) for k, v in kwargs.items()})
 
     def expected(self, recipe, kind, mi, ai):
         key = (recipe, mi, ai)
@@ -661,9 +707,15 @@ class Run:
         elif kind == 'jumps':
             base = self.entries.get(op.get('base'))
             if base is not None and base.obj is not None and base.kind == 'transitions':
-                recipe = ('jumps', base.recipe[1], base.recipe[2], op.get('mr', 0)) if base.recipe[0] == 'transitions' else ('jumps_on', base.recipe, op.get('mr', 0))
+                alt = op.get('conv') == 'alt'
+                if base.recipe[0] == 'transitions':
+                    recipe = ('jumps_c' if alt else 'jumps', base.recipe[1], base.recipe[2], op.get('mr', 0))
+                else:
+                    recipe = ('jumps_on_c' if alt else 'jumps_on', base.recipe, op.get('mr', 0))
                 try:
-                    if op.get('via') == 'api':
+                    if alt:
+                        obj = self.twins.real['jumps'](base.obj, minimal_residence=op.get('mr', 0), conversion_method=alt_conversion)
+                    elif op.get('via') == 'api':
                         obj = base.obj.jumps(minimal_residence=op.get('mr', 0))
                         base.called.append('jumps')
                     else:
@@ -693,8 +745,7 @@ class Run:
             else:
                 ai = op.get('a', 0) % len(METHODS['jumps'][2][1])
                 recipe = ('collective', j.recipe, 'query', ai)
-                args, kwargs = METHODS['jumps'][2][1][ai]
-                obj = j.obj.collective(*args, **kwargs)
+                obj = self.call(j.obj, 'collective', METHODS['jumps'][2][1][ai])
                 j.called.append('collective')
                 maybe = [j.name]
                 checkable = False  # it is a *value* held by Jumps.collective's cache
@@ -877,7 +928,7 @@ class Run:
             self.trace.log(ev='REUSE_PROBE', step=self.step, skipped=True)
             return
         kind = e.kind
-        if e.recipe[0] not in ('metrics', 'transitions', 'jumps'):
+        if e.recipe[0] not in ('metrics', 'transitions', 'jumps'):  # (also skips jumps_c: custom conversion)
             self.trace.log(ev='REUSE_PROBE', step=self.step, skipped='derived object')
             return
         w2 = op['w'] % len(self.worlds)
@@ -919,6 +970,85 @@ class Run:
         if hit:
             self.stats.probe('dead_key_same_hash_lookups')
         self.op_query({'obj': op['name'], 'm': op['m'], 'a': op['a']}, relation='reused_address' if hit else 'after_drop')
+
+    def op_concurrent(self, op):
+        """Two caller threads ask the same question of two different objects; thread B runs entirely inside the window in which
+        thread A is computing its (uncached) answer.  The scheduler owns the interleaving: A is parked at the first line of the
+        wrapped function, B runs to completion (or until it blocks), then A is released."""
+        import threading
+
+        ea, eb = self.entries.get(op['a_obj']), self.entries.get(op['b_obj'])
+        if ea is None or eb is None or ea is eb or ea.obj is None or eb.obj is None or ea.kind != eb.kind:
+            return self.trace.log(ev='CONCURRENT', step=self.step, skipped='objects')
+        if self.root_world(ea.recipe) % len(self.worlds) == self.root_world(eb.recipe) % len(self.worlds):
+            # objects of one world share a Trajectory, which is not thread-safe by itself (in-place representation flips)
+            return self.trace.log(ev='CONCURRENT', step=self.step, skipped='same world')
+        ms = METHODS[ea.kind]
+        mi = op['m'] % len(ms)
+        method, variants = ms[mi]
+        ai = op['a'] % len(variants)
+        wrapped = getattr(getattr(type(ea.obj), method, None), '__wrapped__', None)
+        if wrapped is None or variants[ai][0] == 'property':
+            return self.trace.log(ev='CONCURRENT', step=self.step, skipped='not a decorated method')
+        code = wrapped.__code__
+        entered, release = threading.Event(), threading.Event()
+        out = {}
+
+        def run_a():
+            def tracer(frame, event, arg):
+                if event == 'call' and frame.f_code is code and not entered.is_set():
+                    entered.set()
+                    release.wait(20)
+                return None
+
+            sys.settrace(tracer)
+            try:
+                out['a'] = ('ok', fingerprint(ea.kind, method, self.call(ea.obj, method, variants[ai])))
+            except Exception as ex:  # noqa: BLE001
+                out['a'] = ('exc', type(ex).__name__)
+            finally:
+                sys.settrace(None)
+                entered.set()
+
+        def run_b():
+            try:
+                out['b'] = ('ok', fingerprint(eb.kind, method, self.call(eb.obj, method, variants[ai])))
+            except Exception as ex:  # noqa: BLE001
+                out['b'] = ('exc', type(ex).__name__)
+
+        ta, tb = threading.Thread(target=run_a, name='sim-client-A'), threading.Thread(target=run_b, name='sim-client-B')
+        ta.start()
+        entered.wait(20)
+        overlapped = not out.get('a')
+        tb.start()
+        tb.join(3.0)
+        blocked = tb.is_alive()
+        release.set()
+        ta.join(60)
+        tb.join(60)
+        if ta.is_alive() or tb.is_alive():
+            raise HarnessError('concurrent callers did not finish')
+        self.stats.fault('concurrent_call_overlap' if overlapped else 'concurrent_call_no_overlap')
+        if blocked:
+            self.stats.probe('concurrent_second_caller_waited_for_first')
+        ea.called.append(method)
+        eb.called.append(method)
+        self.trace.log(ev='CONCURRENT', step=self.step, a=ea.name, b=eb.name, method=method, arg=ai,
+                       got_a=[out['a'][0], coarse_hash(out['a'][1]) if out['a'][0] == 'ok' else out['a'][1]],
+                       got_b=[out['b'][0], coarse_hash(out['b'][1]) if out['b'][0] == 'ok' else out['b'][1]])
+        for who, e in (('a', ea), ('b', eb)):
+            exp = self.expected(e.recipe, e.kind, mi, ai)
+            self.oracle_checks += 1
+            if not same(out[who], exp):
+                other = ea if e is eb else eb
+                leaked = same(out[who], self.expected(other.recipe, other.kind, mi, ai))
+                self.violation(
+                    'leak_from_other_object' if leaked else 'stale_or_wrong_value',
+                    f'two callers in parallel: {e.kind}.{method}{variants[ai]} on object {e.name} (recipe {e.recipe}) '
+                    + ('returned the value of the object the other caller was computing at the same time' if leaked else 'differs from the uncached recomputation')
+                    + f' (second caller {"had to wait for" if blocked else "ran inside the compute window of"} the first)',
+                    {'kind': e.kind, 'method': method},
+                )
 
     def op_flood(self, op):
         kind = op['kind']
@@ -967,7 +1097,7 @@ class Run:
         else:
             gc.enable()
         table = {'CREATE': self.op_create, 'QUERY': self.op_query, 'DROP': self.op_drop, 'GC': self.op_gc, 'SHARE': self.op_share,
-                 'CHURN': self.op_churn, 'REUSE_PROBE': self.op_reuse, 'FLOOD': self.op_flood}
+                 'CHURN': self.op_churn, 'REUSE_PROBE': self.op_reuse, 'FLOOD': self.op_flood, 'CONCURRENT': self.op_concurrent}
         for i, op in enumerate(self.sc['ops']):
             self.step = i
             table[op['op']](op)
